@@ -48,6 +48,15 @@ func c10Streams(rng *rand.Rand, jg *JGen, n int, maxLen int) (streams [][]byte, 
 		data, _, _ := streamOf(cs.Calls, rng.Intn(5))
 		return data
 	}
+	// every wrong-shape frame at least once, between two valid calls
+	for _, sh := range c10Shapes {
+		b := append([]byte{}, valid(1)...)
+		b = append(b, sh...)
+		b = append(b, 0)
+		b = append(b, valid(1)...)
+		add("wrong-shape (each)", b)
+	}
+	n += len(c10Shapes)
 	for len(streams) < n {
 		switch k := len(streams) % 8; k {
 		case 0, 1:
@@ -205,6 +214,26 @@ func runC10(r *fw.Run) {
 			r.Done(0)
 			r.Count("aborts_during_big_reply", 1)
 			r.Case(fw.Hash("big", fmt.Sprint(k, ci)), true)
+		}
+		// complete, well-formed calls of large sizes are answered like any other (exact oracle)
+		for k, sz := range []int{65000, 65536 - 80, 65536 + 100, 200000, 1 << 20, 3 << 20} {
+			if sz > 1<<20 && !r.Thorough {
+				continue
+			}
+			cc := &c01Case{Transport: cf.tr, UseListen: cf.listen, Ifaces: c01Ifaces}
+			for j := 0; j < 2; j++ {
+				good++
+				cs := genConnScript(rng, jg, fmt.Sprintf("g%d", good), 3, false)
+				cs.Calls = append(cs.Calls, GenCall{Method: "org.example.script.Large", Script: &CallScript{ID: fmt.Sprintf("large%d.%d", k, j), Pad: json.RawMessage(jg.BigString(sz + j*37)), Steps: []Step{{Op: "reply", NoPar: true}}}},
+					GenCall{Method: "org.varlink.service.GetInfo"})
+				cs.Seg = []int{0, 2}[j]
+				cc.Conns = append(cc.Conns, cs)
+			}
+			r.Journal(0, map[string]interface{}{"what": "large well-formed calls", "size": sz})
+			c01Round(r, g, "C10", cc, true)
+			r.Done(0)
+			r.Max("max_wellformed_frame_bytes", int64(sz))
+			r.Case(fw.Hash("large", fmt.Sprint(sz, ci)), true)
 		}
 		// a client that stalls (neither reads nor closes) in the middle of a multi-MiB reply must not disturb the others
 		for k := 0; k < r.Pick(3, 20) && !g.tainted && r.ViolationCount() <= 12; k++ {
